@@ -130,7 +130,11 @@ class Profile:
         self.begin(W)
         for i, op in enumerate(trace["ops"]):
             before = self.abstract(W)
-            out, vs = self.step(W, i, op)
+            try:
+                out, vs = self.step(W, i, op)
+            except Wd.ProvenanceFailure as pf:
+                out = ("exc", pf.exc_type)
+                vs = [V(f"{self.prop}/provenance[{pf.stage}]/exception({pf.exc_type})", i, f"building the grid under test through public calls failed at {pf}")]
             n += 1
             cls = self.op_class(op)
             W.cov["op_classes"][cls] = W.cov["op_classes"].get(cls, 0) + 1
